@@ -232,7 +232,7 @@ pub fn run_c01(rep: &mut StageReport, tier: &str, _seed: u64) {
 // ---------------------------------------------------------------------------------------
 // C09 at L3: child process with a current-thread runtime and a heartbeat
 // ---------------------------------------------------------------------------------------
-pub const C09_SCENARIOS: [&str; 9] = ["no-peers", "subscribers-only", "publishers-only", "replier-only", "requestor-only", "rejected-replier", "both-sides", "late-requestor-idle-topic", "late-subscriber-and-publisher-idle-topic"];
+pub const C09_SCENARIOS: [&str; 10] = ["no-peers", "subscribers-only", "publishers-only", "replier-only", "requestor-only", "rejected-replier", "both-sides", "late-requestor-idle-topic", "stalled-requestor-resumes", "late-subscriber-and-publisher-idle-topic"];
 
 async fn expect_reply(s: &mut BiStream, body: &[u8], within: Duration) -> std::result::Result<(), String> {
     let mut h = HashMap::new();
@@ -315,6 +315,55 @@ async fn c09_scenario(addr: SocketAddr, certs: &Certs, name: &str) -> std::resul
             let mut rq = open(&c, 3, &t).await?;
             tokio::time::sleep(idle).await;
             expect_reply(&mut rq, b"both sides", Duration::from_secs(4)).await?;
+        }
+        "stalled-requestor-resumes" => {
+            // requestor X gives the server a 64-byte stream window and does not read: its reply stays parked at the
+            // server for seven seconds of wall-clock time. Meanwhile requestor Y asks once. When X finally reads (or
+            // whatever the router decided to do with X in the meantime), Y's request must be answered without any
+            // further traffic waking the router.
+            let rep = open(&c, 2, &t).await?;
+            let _e = spawn_echo(rep);
+            let cfg = raw_client_config_window(&read_der(&certs.client_ca()).map_err(|e| e.to_string())?, ClientIdentity::Cert(read_der(&certs.client_cert()).map_err(|e| e.to_string())?, read_der(&certs.client_key()).map_err(|e| e.to_string())?), Some(64)).map_err(|e| e.to_string())?;
+            let cx = raw_connect_with(addr, cfg).await.map_err(|e| e.to_string())?;
+            let mut x = open(&cx, 3, &t).await?;
+            // several Ys: the reply router visits its sinks in hash order, so some of them come after X
+            let mut ys = vec![];
+            for _ in 0..5 {
+                ys.push(open(&c, 3, &t).await?);
+            }
+            tokio::time::sleep(Duration::from_millis(300)).await;
+            let mut h = HashMap::new();
+            h.insert("req_id".to_string(), "0".to_string());
+            // 40 × 600-byte replies for X: far more than X's window and than the 8 KiB its framed writer buffers, so that
+            // the router is parked on X's sink with a reply in hand
+            for k in 0..40u8 {
+                x.send(m(Some(h.clone()), vec![b'a' + (k % 26); 600])).await.map_err(|e| e.to_string())?;
+            }
+            tokio::time::sleep(Duration::from_millis(6500)).await;
+            for y in ys.iter_mut() {
+                y.send(m(Some(h.clone()), b"asked while X was stalled".to_vec())).await.map_err(|e| format!("Y send: {e}"))?;
+            }
+            tokio::time::sleep(Duration::from_millis(1000)).await;
+            // X takes delivery now (if its stream still exists)
+            let drain = tokio::spawn(async move {
+                while let Ok(Some(Ok(_))) = tokio::time::timeout(Duration::from_secs(8), x.next()).await {}
+            });
+            let deadline = tokio::time::Instant::now() + Duration::from_secs(6);
+            let mut unanswered = 0;
+            for y in ys.iter_mut() {
+                match tokio::time::timeout_at(deadline, y.next()).await {
+                    Ok(Some(Ok(Frame::Message(r)))) if &r.message[..] == b"asked while X was stalled" => {}
+                    Ok(other) => {
+                        drain.abort();
+                        return Err(format!("a requestor got {:?} instead of its reply", other.map(|o| o.map(|f| f.get_type()))));
+                    }
+                    Err(_) => unanswered += 1,
+                }
+            }
+            drain.abort();
+            if unanswered > 0 {
+                return Err(format!("{} of 5 requests, sent by other requestors while one requestor had been stalled for 6.5 s, were still unanswered 6 s after the stalled requestor resumed reading, although nothing else was going on", unanswered));
+            }
         }
         "late-requestor-idle-topic" => {
             // replier and requestor A registered and idle; requestor C joins; its first request must be
